@@ -4,5 +4,6 @@ CONSTANTS
   Root = "r"
   Depths = {0, 3, 4, 5}
   MaxImports = 2
+  AliasSet = {""}
   FaultKinds = {}
 CHECK_DEADLOCK FALSE
